@@ -3,6 +3,7 @@ package utils
 import (
 	"fmt"
 	"lunar/toolkit-core/clock"
+	"lunar/toolkit-core/verifhook"
 	"sync"
 	"time"
 
@@ -104,6 +105,7 @@ func (cache *MemoryCache[K, V]) Set(key K, value V, ttlSec float64) error {
 		}
 	}
 
+	verifhook.Point("cache.set.checked", "key", key, "value", value)
 	ttlDuration := time.Duration(float64(time.Second) * ttlSec)
 	expirationTimeNano := cache.clock.Now().UnixNano() +
 		ttlDuration.Nanoseconds()
